@@ -580,6 +580,12 @@ pub fn run(ctx: &mut Ctx) {
                     if stride > 1 && k % stride != 0 && k >= 300 && k + 300 < n {
                         continue;
                     }
+                    // error kind of the injected fault: rotates with k; at the first operations every kind is tried
+                    let salt = crate::rng::hash_bytes(sc.name.as_bytes()) % 1000;
+                    let variants = if k < 2 { crate::io::FAULT_KINDS.len() as u64 } else { 1 };
+                    for v in 0..variants {
+                    crate::io::FAULT_SALT.store(salt + v, std::sync::atomic::Ordering::Relaxed);
+                    let ekind = format!("{:?}", crate::io::FAULT_KINDS[((k + salt + v) % crate::io::FAULT_KINDS.len() as u64) as usize]);
                     let o = (sc.run)(Some(k));
                     let kind = o.fault_kind.map_or("none", OpKind::name);
                     ctx.enumerated(1, 1);
@@ -589,7 +595,7 @@ pub fn run(ctx: &mut Ctx) {
                     } else {
                         ctx.count("faults_not_reached");
                     }
-                    let mat = json!({"scenario": sc.name, "fail_from_op": k, "of_ops": n, "failing_op_kind": kind});
+                    let mat = json!({"scenario": sc.name, "fail_from_op": k, "of_ops": n, "failing_op_kind": kind, "error_kind": ekind});
                     if let Some(p) = &o.panic {
                         ctx.panic(&sc.name, p, mat);
                         *hist.entry(format!("{kind}:panic")).or_insert(0) += 1;
@@ -631,6 +637,7 @@ pub fn run(ctx: &mut Ctx) {
                                 );
                             }
                         }
+                    }
                     }
                 }
                 ctx.end(case);
